@@ -1755,6 +1755,7 @@ class LeCreditBasedChannel(utils.EventEmitter):
         if self.disconnection_result is not None:
             self.disconnection_result.set_result(None)
             self.disconnection_result = None
+        self.flush_output()
 
     def on_pdu(self, pdu: bytes) -> None:
         if self.sink is None:
@@ -1920,6 +1921,8 @@ class LeCreditBasedChannel(utils.EventEmitter):
     def flush_output(self) -> None:
         self.out_queue.clear()
         self.out_sdu = None
+        # Nothing is left to send: release anyone waiting in drain()
+        self.drained.set()
 
     def process_output(self) -> None:
         while self.credits > 0:
